@@ -101,6 +101,10 @@ class Beat(Task):
         if u < 0.5 and ref:
             est = [max(Fr(5), r + Fr(rng.choice([0, 0, 1, -1, 2, -2, 3, 7]), 32)) for r in ref if rng.random() < 0.9]
             est = sorted(est)
+        elif u < 0.6 and len(ref) >= 3:
+            # the estimate tracks another metrical level: double tempo (beats + midpoints), half tempo, off-beats
+            mids = [(a + b) / 2 for a, b in zip(ref, ref[1:])]
+            est = rng.choice([sorted(ref + mids), ref[::2], ref[1::2], mids])
         else:
             est = self._track(rng)
         u = rng.random()
@@ -250,7 +254,7 @@ class Segment(Task):
         for side in ("ref", "est"):
             ivs, labs = inp[side]
             names = sorted(set(labs))
-            new = ["L%d%s" % (rng.randint(0, 99), chr(65 + i)) for i in range(len(names))]
+            new = ["L%d_%d" % (rng.randint(0, 99), i) for i in range(len(names))]   # distinct also modulo case
             rng.shuffle(new)
             m = dict(zip(names, new))
             out[side] = [ivs, [m[x] for x in labs]]
@@ -281,6 +285,16 @@ class Hierarchy(Task):
         return [out_i, out_l]
 
     def gen(self, rng):
+        if rng.random() < 0.02:
+            # a level with more than 256 distinct labels (label codes must not be squeezed into a byte)
+            n = 300
+            ivs = sv([[Fr(i), Fr(i + 1)] for i in range(n)])
+            labs = ["seg%03d" % rng.randint(0, 999) + "_%d" % i for i in range(n)]
+            top = sv([[Fr(0), Fr(n)]])
+            return {"ref": [[top, ivs], [["all"], labs]],
+                    "est": [[top, sv([[Fr(2 * i), Fr(2 * i + 2)] for i in range(n // 2)])],
+                            [["all"], ["e%d" % rng.randint(0, 9) for _ in range(n // 2)]]],
+                    "kw": {"frame_size": 1.0}}
         span = Fr(rng.randint(2, 8))
         return {"ref": self._hier(rng, span, "abc"), "est": self._hier(rng, span, "xyz")}
 
@@ -314,7 +328,7 @@ class Hierarchy(Task):
         for side in ("ref", "est"):
             ivs, labs = inp[side]
             names = sorted({x for lv in labs for x in lv})
-            new = ["N%d%s" % (rng.randint(0, 99), chr(65 + i)) for i in range(len(names))]
+            new = ["N%d_%d" % (rng.randint(0, 99), i) for i in range(len(names))]   # distinct also modulo case
             rng.shuffle(new)
             m = dict(zip(names, new))
             out[side] = [ivs, [[m[x] for x in lv] for lv in labs]]
@@ -427,8 +441,12 @@ class Melody(Task):
                 em.append(None)
             else:
                 em.append(-x)   # negative = unvoiced with a pitch guess
-        return {"ref": [[S(x) for x in t], [None if x is None else S(x) for x in m]],
-                "est": [[S(x) for x in t], [None if x is None else S(x) for x in em]]}
+        out = {"ref": [[S(x) for x in t], [None if x is None else S(x) for x in m]],
+               "est": [[S(x) for x in t], [None if x is None else S(x) for x in em]]}
+        if rng.random() < 0.3:   # continuous reference reward / estimated voicing (Bittner & Bosch)
+            out["reward"] = [S(Fr(rng.randint(0, 8), 8)) if x is not None else "0" for x in m]
+            out["est_voicing"] = [S(Fr(rng.randint(0, 8), 8)) for _ in em]
+        return out
 
     def gen_self(self, rng):
         while True:
@@ -451,6 +469,10 @@ class Melody(Task):
 
     def evaluate(self, inp, **kw):
         hz = inp.get("hz") or {}
+        if inp.get("reward") is not None:
+            kw.setdefault("ref_reward", farr(inp["reward"]))
+        if inp.get("est_voicing") is not None:
+            kw.setdefault("est_voicing", farr(inp["est_voicing"]))
         return mir_eval.melody.evaluate(farr(inp["ref"][0]), self._hz(inp["ref"][1]) * float(F(hz.get("ref", 1))),
                                         farr(inp["est"][0]), self._hz(inp["est"][1]) * float(F(hz.get("est", 1))), **kw)
 
@@ -605,6 +627,9 @@ class Transcription(Task):
         est += self._notes(rng, rng.choice([0, 0, 1, 2]))
         if rng.random() < 0.3 and ref:
             ref.append(list(rng.choice(ref)))  # duplicated note
+        if rng.random() < 0.25 and est:
+            e = list(rng.choice(est))          # the same note reported two or three times by the estimate
+            est += [list(e) for _ in range(rng.choice([1, 2]))]
         return {"ref": [[S(v) for v in x] for x in ref], "est": [[S(v) for v in x] for x in est]}
 
     def gen_self(self, rng):
@@ -663,6 +688,8 @@ class TranscriptionVelocity(Transcription):
     def gen_self(self, rng):
         inp = Transcription.gen_self(self, rng)
         vel = [S(rng.randint(20, 120)) for _ in inp["ref"]]
+        if rng.random() < 0.3:
+            vel = [vel[0]] * len(vel)          # fixed-velocity annotation
         inp["ref"] = [n + [v] for n, v in zip(inp["ref"], vel)]
         inp["est"] = [list(n) for n in inp["ref"]]
         return inp
@@ -732,7 +759,7 @@ class Key(Task):
         return {"ref": rng.choice(KEYS), "est": rng.choice(KEYS)}
 
     def gen_self(self, rng):
-        k = rng.choice([k for k in KEYS if not k.endswith("other")])
+        k = rng.choice([k for k in KEYS if not k.endswith("other")] + ["X", "x"])
         return {"ref": k, "est": k}
 
     def evaluate(self, inp, **kw):
